@@ -2,11 +2,32 @@ use crate::alloc::{format, Vec};
 use crate::error::MockError;
 use crate::{debug, MockFnInfo};
 
+#[cfg(not(unimock_verif))]
 use core::{fmt::Display, sync::atomic::AtomicUsize};
+#[cfg(unimock_verif)]
+use {crate::verif::AtomicUsize, core::fmt::Display};
 
 pub(crate) struct CallCounter {
     actual_count: AtomicUsize,
     expectation: CallCountExpectation,
+}
+
+#[cfg(unimock_verif)]
+impl CallCounter {
+    pub(crate) fn verif_peek(&self) -> usize {
+        self.actual_count.peek()
+    }
+
+    pub(crate) fn verif_expectation(&self) -> (usize, &'static str) {
+        (
+            self.expectation.lower_bound().0,
+            match self.expectation.exactness {
+                Exactness::Exact => "Exact",
+                Exactness::AtLeast => "AtLeast",
+                Exactness::AtLeastPlusOne => "AtLeastPlusOne",
+            },
+        )
+    }
 }
 
 impl CallCounter {
